@@ -148,6 +148,11 @@ def run_case(ctx, case):
             ctx.count("decoded-some-entries")
             if len(data) < 120:
                 ctx.sample(case)
+    if case.get("shape"):
+        sh = case["shape"]
+        ctx.count("ptrgraph:" + sh)
+        if "cycle" in sh or "self" in sh:
+            ctx.count("ptrgraph:cyclic tail=%s cycle=%s" % (min(case["hops"] - case["cycle"], 3), min(case["cycle"], 4)))
     ctx.count("steps<=100" if steps <= 100 else "steps<=1000" if steps <= 1000 else "steps>1000")
 
 
@@ -330,8 +335,80 @@ def pointer_cycles():
     return out
 
 
+def graph_shape(slots, start=0, first_target=None):
+    """Classify the walk a name decoder makes through `slots` from `start`.
+    slots[i] is ("p", j) pointer to slot j, ("l",) a one-octet label that falls
+    through to slot i+1, or ("0",) the root label.  first_target: the target of a
+    pointer already followed to get here.  -> (shape, pointer hops, hops inside the cycle)."""
+    order = []           # slots in visiting order
+    hops_at = {}         # slot -> pointer hops made before reaching it
+    i, hops = start, 0
+    while True:
+        if i >= len(slots):
+            return "runs-into-tail", hops, 0
+        if i in hops_at:
+            cyc = order[order.index(i):]
+            if len(cyc) == 1 and hops == 1 and first_target == i and start == i:
+                return "self-pointer", hops, 1
+            return (("cycle-through-first-target" if first_target in cyc else "rho-cycle-avoids-first-target"),
+                    hops, hops - hops_at[i])
+        hops_at[i] = hops
+        order.append(i)
+        kind = slots[i][0]
+        if kind == "0":
+            return "terminates", hops, 0
+        if kind == "l":
+            i += 1
+            continue
+        if first_target is None:
+            first_target = slots[i][1]
+        hops += 1
+        i = slots[i][1]
+
+
+def pointer_graphs():
+    """Every arrangement of k two-octet slots starting at offset 12, each slot a
+    compression pointer to any of the k slots, a one-octet label, or the root
+    label: all functional graphs (tails of every length leading into cycles of
+    every length, with and without labels on the way) for k <= 4, pointers/root
+    only for k = 5; plus, for k = 3, the same region entered through an earlier
+    pointer from the question name at every slot.  Yields (bytes, shape)."""
+    import itertools
+    tail = b"\x00\x01\x00\x01" + b"\x00" * 12
+
+    def render(slots, base):
+        out = b""
+        for sl in slots:
+            if sl[0] == "p":
+                out += (0xC000 | (base + 2 * sl[1])).to_bytes(2, "big")
+            elif sl[0] == "l":
+                out += b"\x01x"
+            else:
+                out += b"\x00\x00"
+        return out
+
+    for k in (1, 2, 3, 4, 5):
+        alphabet = [("p", j) for j in range(k)] + [("0",)] + ([("l",)] if k <= 4 else [])
+        for slots in itertools.product(alphabet, repeat=k):
+            shape, hops, cyc = graph_shape(slots)
+            yield (struct.pack("!HHHHHH", 7, 0, 1, 1, 0, 0) + render(slots, 12) + tail, shape, hops, cyc)
+    k = 3
+    alphabet = [("p", j) for j in range(k)] + [("0",), ("l",)]
+    for slots in itertools.product(alphabet, repeat=k):
+        for entry in range(k):
+            shape, hops, cyc = graph_shape(slots, entry, first_target=entry)
+            # question name = pointer to slot `entry`; the slot region follows the question
+            d = (struct.pack("!HHHHHH", 7, 0x8000, 1, 1, 0, 0) + (0xC000 | (18 + 2 * entry)).to_bytes(2, "big")
+                 + b"\x00\x01\x00\x01" + render(slots, 18) + tail)
+            yield (d, "entered-by-pointer:" + shape, hops + 1, cyc)
+
+
 def small_scope():
     seen = set()
+    for d, shape, hops, cyc in pointer_graphs():
+        if d not in seen:
+            seen.add(d)
+            yield dict(data=d, shape=shape, hops=hops, cycle=cyc)
 
     def emit(d):
         if d not in seen:
@@ -427,7 +504,7 @@ def _hyp_shard(sub, i):
 
 def run(ctx):
     enumerate_run(ctx, small_scope(), run_case)
-    ctx.extra["small_scope"] = "pointer-cycle corpus; for one sample record of each of 28 types: every prefix, 12 RDLENGTH lies, every known type code swapped in (whole and cut at 4 places)"
+    ctx.extra["small_scope"] = "every pointer graph on k<=5 slots (pointer to any slot | label | root; labels only for k<=4), k=3 also entered through a prior pointer at each slot; hand-written long cycles; for one sample record of each of 28 types: every prefix, 12 RDLENGTH lies, every known type code swapped in (whole and cut at 4 places)"
     if ctx.has_violation():
         return
     if not ctx.thorough:
